@@ -165,25 +165,41 @@ func RunRace(sc *ConcScenario) *ConcResult {
 	sim := simrt.New(simrt.Config{Seed: sc.SchedSeed, Strategy: sc.Strategy, Epoch: sc.Epoch, StepBudget: 400000, Replay: sc.Replay})
 	defer sim.Close()
 	cacheFam := sc.Family == "cache"
-	var m MapAPI
-	var c CacheAPI
+	var m, m2 MapAPI
+	var c, c2 CacheAPI
 	if cacheFam {
 		var cb func(int, int64)
 		if sc.Ctor.CB {
 			cb = func(int, int64) {}
 		}
 		c = NewCacheKind(sc.Ctor, cb)
+		c2 = c
+		if sc.TwoContainers {
+			c2 = NewCacheKind(sc.Ctor, cb)
+		}
 	} else {
 		m = NewMapKind(sc.Kind, sc.Hasher, sc.Presize, sc.UsePre)
+		m2 = m
+		if sc.TwoContainers {
+			m2 = NewMapKind(sc.Kind, sc.Hasher, sc.Presize, sc.UsePre)
+		}
 	}
-	exec := func(op Op) {
+	// with two containers, odd tasks use the second one: whatever the library
+	// shares between containers (package-level state) is then touched concurrently
+	execOn := func(second bool, op Op) {
 		yieldUser()
-		if cacheFam {
+		switch {
+		case cacheFam && second:
+			leanCache(c2, op)
+		case cacheFam:
 			leanCache(c, op)
-		} else {
+		case second:
+			leanMap(m2, op)
+		default:
 			leanMap(m, op)
 		}
 	}
+	exec := func(op Op) { execOn(false, op) }
 	prefillPresent := sc.Prefill
 	if sc.PrefillKeep >= 0 && sc.PrefillKeep < sc.Prefill {
 		prefillPresent = sc.PrefillKeep
@@ -211,9 +227,10 @@ func RunRace(sc *ConcScenario) *ConcResult {
 		}
 		for ti := range ph.Tasks {
 			prog := ph.Tasks[ti]
+			second := sc.TwoContainers && ti%2 == 1
 			t := sim.Spawn(fmt.Sprintf("p%dt%d", pi, ti), func() {
 				for _, op := range prog {
-					exec(op)
+					execOn(second, op)
 				}
 			})
 			for _, d := range ph.Delays {
